@@ -40,7 +40,9 @@ RULE = ("graphs with <= 9 nodes (<= 12 in every third thorough case): random spa
         "node and neighbour order, non-contiguous labels; damping in (0,1), resolution > 0, tol and max_iter varied "
         "or left at their defaults; every graph is presented through a neighbour function returning a fresh iterable "
         "of a random style per case or per node (list, tuple, set, frozenset, dict keys view, generator, iter, map, "
-        "filter); one case in seven is a multi-step history: one mutable adjacency dict behind ONE neighbour function "
+        "filter); the labels 0,1,2,… Lean sees are represented towards the implementation by an order-preserving "
+        "injection chosen per case (identity, ints >= 1000, ints >= 2**61-1, negatives, pools with colliding hashes "
+        "such as -1/-2 and 0/2**61-1, tuples, strings), every occurrence a freshly created equal object; one case in seven is a multi-step history: one mutable adjacency dict behind ONE neighbour function "
         "object, 2-4 edits (add/remove entries, add/remove nodes) interleaved with calls of the entry points in varying "
         "orders, every call judged against the graph as it is at that call; non-trivial = at least one cut vertex or "
         "at least two distinct core numbers (in some call of a history); distinct by canonical (nodes, neighbour "
@@ -158,12 +160,50 @@ def gen_case(rng, big: bool):
     else:
         styles = [rng.choice(STYLES) for _ in range(n)]
     return {"nodes": labels, "nbrs": nbrs, "k": rng.choice([0, 1, 1, 2, 2, 3, 4, 6]), "params": params,
-            "styles": styles}
+            "styles": styles, "labels": rng.choice(LABELS)}
 
 
 # how a neighbour function may hand over its answer: every `Iterable` is legal, a fresh one per call
 STYLES = ["list", "list", "tuple", "set", "frozenset", "dictkeys", "genfunc", "iter", "map", "filter"]
 UNORDERED = {"set", "frozenset"}
+
+# how the canonical labels 0, 1, 2, … (what Lean sees) are REPRESENTED towards the implementation: an order-preserving
+# injection into ints beyond the small-int cache / with colliding hashes (hash(-1) == hash(-2), hash(2**61-1) == 0,
+# hash(2**61) == 1 …), tuples and strings; equal labels are re-created on every use, never the same object
+POOLS = {
+    "poolA": [-2, -1, 0, 1, 2, 3, 4, 5, 6, 7, 8, 9, 10],
+    "poolB": [-1, 0, 2**61 - 1, 2**61, 2**61 + 1, 2**62, 2**63, 2**64, 2**65],
+    "poolC": [-2, -1, 0, 2**61 - 1, 2**61, 2**61 + 1, 2**61 + 2, 2 * (2**61 - 1), 2**63],
+}
+LABELS = ["ident", "ident", "ident", "big", "huge", "neg", "poolA", "poolB", "poolC", "tuple", "str"]
+
+
+def relabel(kind, x):
+    if kind == "big":
+        return 1000 + 7 * x
+    if kind == "huge":
+        return 2**61 - 1 + x
+    if kind == "neg":
+        return x - 2
+    if kind in POOLS:
+        pool = POOLS[kind]
+        return pool[x] if x < len(pool) else pool[-1] + (x - len(pool) + 1)
+    if kind == "tuple":
+        return (x // 4, x % 4)
+    if kind == "str":
+        return f"v{x:04d}"
+    return x
+
+
+def fresh(a):
+    """An equal but newly created object (ints outside CPython's small-int cache, tuples, strings)."""
+    if isinstance(a, int):
+        return int(str(a))
+    if isinstance(a, tuple):
+        return tuple(list(a))
+    if isinstance(a, str):
+        return "".join(list(a))
+    return a
 
 
 def present(style, lst):
@@ -183,7 +223,7 @@ def present(style, lst):
     if style == "iter":
         return iter(list(lst))
     if style == "map":
-        return map(int, lst)
+        return map(lambda x: x, lst)
     if style == "filter":
         return filter(lambda x: True, lst)
     return list(lst)
@@ -266,8 +306,9 @@ def gen_history(rng):
 
 
 def edge_cases():
-    def c(nodes, nbrs, k=1, styles=None, **params):
-        return {"nodes": nodes, "nbrs": nbrs, "k": k, "params": params, "styles": styles or ["list"] * len(nodes)}
+    def c(nodes, nbrs, k=1, styles=None, labels="ident", **params):
+        return {"nodes": nodes, "nbrs": nbrs, "k": k, "params": params, "styles": styles or ["list"] * len(nodes),
+                "labels": labels}
     yield c([], [])
     yield c([5], [[5]])
     yield c([0, 1], [[1], []])                                   # one edge listed from one side
@@ -282,6 +323,11 @@ def edge_cases():
     # one-shot iterables: generator function / iter / map (a second walk over the same object sees nothing)
     for sty in ("genfunc", "iter", "map", "filter", "set", "dictkeys", "tuple"):
         yield c([0, 1, 2, 3], [[1, 2], [2], [0, 3, 3], []], k=1, styles=[sty] * 4)
+    # label representations: equal-but-not-identical objects, colliding hashes, order different from hash order
+    for lab in LABELS[3:]:
+        yield c([0, 1, 2, 3], [[1], [0, 2], [1, 3], [2]], k=1, labels=lab)                      # path: 3 bridges
+        yield c([2, 0, 3, 1], [[0, 1, 3], [1, 2], [2], [0, 2]], k=2, labels=lab, resolution=0.3)  # triangle + pendant
+        yield c([0, 1, 2, 3, 4, 5], [[1, 2], [0, 2], [0, 1, 3], [2, 4, 5], [3, 5], [3, 4]], k=2, labels=lab)
     # history: a chain closed into a ring, same node list, same neighbour function object
     chain = [[1], [0, 2], [1, 3], [2, 4], [3, 5], [4]]
     yield {**c([0, 1, 2, 3, 4, 5], chain), "kind": "history",
@@ -298,33 +344,36 @@ def edge_cases():
 FNS = ["articulation_points", "bridges", "kcore_decomposition", "kcore", "pagerank", "louvain"]
 
 
-def call_fn(fn, nodes, nb, case):
-    """Call one of the five entry points and canonicalise what it returns."""
+def call_fn(fn, nodes, nb, case, back=None):
+    """Call one of the five entry points and canonicalise what it returns (labels mapped back to canonical ints)."""
     from solvor.articulation import articulation_points, bridges
     from solvor.community import louvain
     from solvor.kcore import kcore, kcore_decomposition
     from solvor.pagerank import pagerank
     p = case["params"]
+    lab = case.get("labels", "ident")
+    B = back if back is not None else (lambda a: a)
+    actual = [fresh(relabel(lab, x)) for x in nodes]
     try:
         if fn == "articulation_points":
-            return ("ok", sorted(articulation_points(list(nodes), nb).solution))
+            return ("ok", sorted(B(x) for x in articulation_points(actual, nb).solution))
         if fn == "bridges":
-            return ("ok", [list(e) for e in bridges(list(nodes), nb).solution])
+            return ("ok", [[B(a), B(b)] for a, b in bridges(actual, nb).solution])
         if fn == "kcore_decomposition":
-            return ("ok", [[v, c] for v, c in kcore_decomposition(list(nodes), nb).solution.items()])
+            return ("ok", [[B(v), c] for v, c in kcore_decomposition(actual, nb).solution.items()])
         if fn == "kcore":
-            return ("ok", sorted(kcore(list(nodes), nb, case["k"]).solution))
+            return ("ok", sorted(B(x) for x in kcore(actual, nb, case["k"]).solution))
         if fn == "pagerank":
             kw = {k: p[k] for k in ("damping", "tol", "max_iter") if k in p}
-            r = pagerank(list(nodes), nb, **kw)
+            r = pagerank(actual, nb, **kw)
             keys = list(r.solution.keys())
-            return ("ok", {"status": r.status.name, "keys": keys,
+            return ("ok", {"status": r.status.name, "keys": [B(v) for v in keys],
                            "bits": [fbits(float(r.solution[v])) for v in keys],
                            "rats": [rat(r.solution[v]) for v in keys]})
         if fn == "louvain":
             kw = {"resolution": p["resolution"]} if "resolution" in p else {}
-            r = louvain(list(nodes), nb, **kw)
-            return ("ok", {"comms": [sorted(c) for c in r.solution], "modularity": rat(r.objective)})
+            r = louvain(actual, nb, **kw)
+            return ("ok", {"comms": [sorted(B(x) for x in c) for c in r.solution], "modularity": rat(r.objective)})
         raise ValueError(fn)
     except Exception as e:  # noqa: BLE001 - the error kind is an observable
         return ("err", f"{type(e).__name__}: {e}"[:300])
@@ -335,8 +384,15 @@ def impl(case, only=None):
     adj = {v: list(l) for v, l in zip(nodes, case["nbrs"])}
     styles = dict(zip(nodes, case.get("styles") or ["list"] * len(nodes)))
 
-    def nb(v):  # ONE function object per case; a fresh iterable on every call
-        return present(styles.get(v, "list"), adj.get(v, []))
+    lab = case.get("labels", "ident")
+    inverse = {relabel(lab, x): x for x in range(0, 300)}
+
+    def back(a):
+        return inverse[a]
+
+    def nb(a):  # ONE function object per case; a fresh iterable of freshly created labels on every call
+        v = inverse[a]
+        return present(styles.get(v, "list"), [fresh(relabel(lab, w)) for w in adj.get(v, [])])
 
     if case.get("kind") == "history":
         done, edited = [], False
@@ -358,12 +414,12 @@ def impl(case, only=None):
             else:
                 snap = {"nodes": list(nodes), "nbrs": [list(adj[v]) for v in nodes],
                         "styles": [styles.get(v, "list") for v in nodes]}
-                done.append({"fn": step[1], "res": call_fn(step[1], nodes, nb, case), "snap": snap,
+                done.append({"fn": step[1], "res": call_fn(step[1], nodes, nb, case, back), "snap": snap,
                              "after_edit": edited})
         return {"steps": done}
     out = {}
     for fn in FNS:
-        out[fn] = ("ok", None) if only is not None and fn != only else call_fn(fn, nodes, nb, case)
+        out[fn] = ("ok", None) if only is not None and fn != only else call_fn(fn, nodes, nb, case, back)
     out["unchanged"] = adj == {v: list(l) for v, l in zip(case["nodes"], case["nbrs"])}
     return out
 
@@ -400,7 +456,7 @@ def views(case, out):
         for i, st in enumerate(out[1]["steps"]):
             sn = st["snap"]
             seen = {"nodes": sn["nodes"], "nbrs": effective(sn), "styles": sn["styles"], "k": case["k"],
-                    "params": case["params"], "raw": sn["nbrs"]}
+                    "params": case["params"], "raw": sn["nbrs"], "labels": case.get("labels", "ident")}
             o = {fn: ("ok", None) for fn in FNS}
             o[st["fn"]] = tuple(st["res"])
             items.append((seen, ("ok", o), {"hist": True, "after_edit": st["after_edit"], "step": i, "fn": st["fn"]}))
@@ -442,6 +498,7 @@ def judge(ctx, case, out, reply, orig=None, meta=None):
             ctx.count("input:" + f)
     for y in set(styles):
         ctx.count("style:" + y)
+    ctx.count("labels:" + (orig or case).get("labels", "ident"))
     if any(y in ("genfunc", "iter", "map", "filter") for y in styles):
         ctx.count("input:one_shot_iterable")
     ctx.count(f"n={len(case['nodes'])}")
@@ -557,7 +614,8 @@ def judge(ctx, case, out, reply, orig=None, meta=None):
         ctx.count(f"cut_vertices={min(len(d_ap), 3)}")
         ctx.count(f"bridges={min(len(d_br), 3)}")
         ctx.count(f"core_levels={len(set(d_core))}")
-        canon = [nodes, case.get("raw", case["nbrs"]), styles, case["k"], sorted(case["params"].items())]
+        canon = [nodes, case.get("raw", case["nbrs"]), styles, case.get("labels", "ident"), case["k"],
+                 sorted(case["params"].items())]
         ctx.case(canon, nontrivial, {"case": rep["case"], "cut_vertices": d_ap, "bridges": d_br, "core": d_core,
                                      "impl_ap": o["articulation_points"], "impl_bridges": o["bridges"]})
     return nontrivial
@@ -626,18 +684,19 @@ def judge_case(ctx, case, out, items):
         for function, klass, what, rep in pr.fails:
             if meta["after_edit"] and not klass.startswith("raises:"):
                 # the same graph through a FRESH neighbour function: right there => the answer was stale
-                fresh = {"nodes": seen["nodes"], "nbrs": seen["raw"], "styles": seen["styles"], "k": seen["k"],
-                         "params": seen["params"]}
-                (fo, fitems), = evaluate([fresh])
+                again = {"nodes": seen["nodes"], "nbrs": seen["raw"], "styles": seen["styles"], "k": seen["k"],
+                         "params": seen["params"], "labels": case.get("labels", "ident")}
+                (fo, fitems), = evaluate([again])
                 fp = Probe()
                 for s2, po2, m2, rp2 in fitems:
-                    judge(fp, s2, po2, rp2, orig=fresh)
+                    judge(fp, s2, po2, rp2, orig=again)
                 if not any(f[0] == function for f in fp.fails):
                     klass = "stale_result_after_edit"
                     what = (f"call {meta['step']} ({function}) after an edit of the graph behind the same neighbour "
                             f"function: {what}; a fresh call on the same graph is right")
             ctx.fail(function, klass, what, rep)
-    canon = [case["nodes"], case["nbrs"], case.get("styles"), case["steps"], case["k"], sorted(case["params"].items())]
+    canon = [case["nodes"], case["nbrs"], case.get("styles"), case.get("labels", "ident"), case["steps"], case["k"],
+             sorted(case["params"].items())]
     ctx.case(canon, nontrivial, {"case": case})
 
 
@@ -672,6 +731,8 @@ def shrink_candidates(case):
         yield {**case, "k": case["k"] - 1}
     if any(y != "list" for y in styles):
         yield {**case, "styles": ["list"] * len(nodes)}
+    if case.get("labels", "ident") != "ident":
+        yield {**case, "labels": "ident"}
 
 
 def shrink(case, function, klass, max_rounds=40):
